@@ -442,6 +442,7 @@ type FuncFacts struct {
 }
 
 type FactEngine struct {
+	summarising int
 	p     *Program
 	fx    *Effects
 	cache map[*FuncSrc]*FuncFacts
@@ -1563,11 +1564,146 @@ func (ff *FuncFacts) assume(st *State, e ast.Expr, pol bool) *State {
 			st = st.with(mkFact(pol, "true", &Term{K: 'r', Name: "res0", Pos: call.Lparen}, nil))
 		}
 	}
+	if call, ok := e.(*ast.CallExpr); ok {
+		st = ff.predicateSummary(st, call, pol)
+	}
 	if t := ff.term(e); t != nil {
 		if t.K == 'c' {
 			return st
 		}
 		return st.add(mkFact(pol, "true", t, nil))
+	}
+	return st
+}
+
+// predicateSummary: the call is a module function returning bool that was
+// just assumed to have returned pol.  What holds at every `return pol` of
+// the callee, expressed over its parameters, holds here for the arguments.
+func (ff *FuncFacts) predicateSummary(st *State, call *ast.CallExpr, pol bool) *State {
+	if st == nil {
+		return st
+	}
+	e := ff.eng
+	if e.summarising > 2 {
+		return st
+	}
+	f, _ := typeutil.Callee(ff.info(), call).(*types.Func)
+	if f == nil {
+		return st
+	}
+	fs := e.p.SrcOfFunc(f.Origin())
+	if fs == nil || fs == ff.fs || fs.Decl == nil {
+		return st
+	}
+	sig, _ := f.Type().(*types.Signature)
+	if sig == nil || sig.Results().Len() != 1 || sig.Variadic() {
+		return st
+	}
+	if bt, ok := sig.Results().At(0).Type().Underlying().(*types.Basic); !ok || bt.Kind() != types.Bool {
+		return st
+	}
+	e.summarising++
+	cf := e.Analyze(fs)
+	e.summarising--
+	if cf == nil {
+		return st
+	}
+	want := "false"
+	if pol {
+		want = "true"
+	}
+	var common *State
+	n := 0
+	for _, ex := range cf.Exits() {
+		if ex.Ret == nil || len(ex.Ret.Results) != 1 || ex.St == nil {
+			return st
+		}
+		tv := fs.Pkg.TypesInfo.Types[ex.Ret.Results[0]]
+		if tv.Value == nil {
+			// a computed answer: under pol the returned condition itself holds
+			s2 := cf.assume(ex.St, ex.Ret.Results[0], pol)
+			if s2 == nil {
+				continue // this exit cannot produce pol
+			}
+			n++
+			if common == nil {
+				common = s2
+			} else {
+				common = meet(common, s2)
+			}
+			continue
+		}
+		if tv.Value.String() != want {
+			continue
+		}
+		n++
+		if common == nil {
+			common = ex.St
+		} else {
+			common = meet(common, ex.St)
+		}
+	}
+	if n == 0 || common == nil {
+		return st
+	}
+	// substitute parameters by arguments; facts about anything else local are dropped
+	info := fs.Pkg.TypesInfo
+	params := fs.params(info)
+	var args []ast.Expr
+	if fs.Decl.Recv != nil {
+		sel, ok := unparen(call.Fun).(*ast.SelectorExpr)
+		if !ok {
+			return st
+		}
+		args = append(args, sel.X)
+	}
+	args = append(args, call.Args...)
+	if len(args) != len(params) {
+		return st
+	}
+	assigned := cf.assignedVars()
+	sub := map[string]*Term{}
+	pset := map[types.Object]bool{}
+	for i, po := range params {
+		if po == nil {
+			continue
+		}
+		if assigned[po] {
+			continue
+		}
+		at := ff.term(args[i])
+		if at == nil {
+			continue
+		}
+		sub[TVar(po).String()] = at
+		pset[po] = true
+	}
+	for _, g := range common.m {
+		if g.Op == "imp" {
+			continue
+		}
+		en := g.ents()
+		if len(en.sites) > 0 {
+			continue
+		}
+		okVars := true
+		for v := range en.vars {
+			if !pset[v] && !isGlobal(v) {
+				okVars = false
+			}
+		}
+		if !okVars {
+			continue
+		}
+		a := g.A
+		b := g.B
+		for from, to := range sub {
+			a = a.subst(from, to)
+			if b != nil {
+				b = b.subst(from, to)
+			}
+		}
+		st = st.add(mkFact(g.Pos, g.Op, a, b))
 	}
 	return st
 }
@@ -2012,6 +2148,50 @@ func (ff *FuncFacts) assign(x *ast.AssignStmt, st *State) *State {
 			}
 		}
 	}
+	// b := <condition>: testing b later is testing the condition (as long as
+	// nothing it mentions has changed; the implications are killed with it)
+	if len(x.Lhs) == len(x.Rhs) {
+		for i := range x.Lhs {
+			lt := lts[i]
+			if lt == nil || lt.K != 'v' {
+				continue
+			}
+			if bt, ok := info.TypeOf(x.Lhs[i]).Underlying().(*types.Basic); !ok || bt.Kind() != types.Bool {
+				continue
+			}
+			rhs := unparen(x.Rhs[i])
+			if tv := info.Types[rhs]; tv.Value != nil {
+				continue
+			}
+			if _, isId := rhs.(*ast.Ident); isId {
+				continue
+			}
+			if rt := rts[i]; rt != nil && rt.mentions(lt.String()) {
+				continue
+			}
+			for _, pol := range []bool{true, false} {
+				learnt := ff.assume(emptyState, rhs, pol)
+				if learnt == nil {
+					continue
+				}
+				cond := mkFact(pol, "true", lt, nil)
+				for _, g := range learnt.m {
+					if g.Op == "imp" || g.key == cond.key {
+						continue
+					}
+					mentionsSelf := false
+					for _, t := range g.terms() {
+						if t.mentions(lt.String()) {
+							mentionsSelf = true
+						}
+					}
+					if !mentionsSelf {
+						st = st.with(mkImp(cond, g))
+					}
+				}
+			}
+		}
+	}
 	// x = f(x): the shape of the result is still known
 	for i := range x.Lhs {
 		if lts[i] == nil || i >= len(rts) || rts[i] == nil || !rts[i].mentions(lts[i].String()) || len(x.Rhs) != len(x.Lhs) {
@@ -2045,6 +2225,24 @@ func (ff *FuncFacts) resultShape(st *State, lt *Term, call *ast.CallExpr) *State
 		switch callee.FullName() {
 		case "path.Clean", "path/filepath.Clean":
 			st = st.add(mkFact(false, "eq", TStr(""), lt))
+		case "errors.New", "fmt.Errorf":
+			st = st.add(mkFact(false, "eq", lt, TNil()))
+		}
+	default:
+		// T(x) with T a named non-nillable type, stored in an interface: a non-nil value
+		if tv, ok := info.Types[call.Fun]; ok && tv.IsType() {
+			switch tv.Type.Underlying().(type) {
+			case *types.Basic, *types.Struct, *types.Array:
+				if lt.Typ != nil {
+					if _, isIface := lt.Typ.Underlying().(*types.Interface); isIface {
+						st = st.add(mkFact(false, "eq", lt, TNil()))
+					}
+				} else if lt.K == 'v' && lt.Obj != nil {
+					if _, isIface := lt.Obj.Type().Underlying().(*types.Interface); isIface {
+						st = st.add(mkFact(false, "eq", lt, TNil()))
+					}
+				}
+			}
 		}
 	}
 	return st
@@ -2754,6 +2952,9 @@ func (ff *FuncFacts) refutes(b *cfg.Block, succ int, inP func(*Fact) bool) bool 
 		}
 	} else if succ < len(outs) && outs[succ] == nil {
 		return true
+	}
+	if succ < len(outs) && outs[succ] != nil && contradictory(outs[succ]) {
+		return true // the edge cannot be taken at all
 	}
 	cond := ff.condOf(b)
 	if cond == nil {
